@@ -25,7 +25,7 @@ OUT_ATTRS = {"cap_out", "cost_out", "efficiency"}
 CLASSES = ("Storage", "SimpleContract", "Transport")
 
 
-CARRIERS = {"c", "l", "u", "A", "b", "cType", "mapping"}
+from ..carriers import local_roles
 
 
 class RoleEval:
@@ -34,8 +34,10 @@ class RoleEval:
 
     def __init__(self, ctx, fn):
         self.ff = ctx.flow(fn)
+        self.carriers = set(local_roles(fn))
 
     def _nodes(self, e, at, depth=0, seen=None):
+        CARRIERS = self.carriers
         seen = seen if seen is not None else set()
         for n in au.walk_local(e):
             if not isinstance(n, ast.expr):
@@ -81,8 +83,8 @@ class RoleEval:
             if isinstance(n, ast.Call) and au.call_name(n) in ("np.maximum", "numpy.maximum") and n.args and au.const_num(n.args[0]) == 0:
                 outs.add("max(0,.)")
         # signed atoms: -extra_costs / +extra_costs, -ones / ones * efficiency
-        names = {x.id for x in au.walk_local(e) if isinstance(x, ast.Name)}
-        if "extra_costs" in names and not (ins or outs):
+        has_extra = any(isinstance(x, ast.Attribute) and au.path(x) == "self.extra_costs" for x in self._nodes(e, at))
+        if has_extra and not (ins or outs):
             (ins if top_neg else outs).add("-extra_costs" if top_neg else "+extra_costs")
         if isinstance(e, ast.UnaryOp) and isinstance(e.op, ast.USub) and isinstance(e.operand, ast.Call) and au.method_name(e.operand) == "ones":
             ins.add("-1")
@@ -142,7 +144,8 @@ def run(ctx):
                 ops = _two_operands(n)
                 if not ops:
                     continue
-                if isinstance(st, ast.Assign) and au.U(st.targets[0]) == au.U(ops[0]) and st.value is n:
+                if isinstance(st, ast.Assign) and au.U(st.targets[0]) == au.U(ops[0]) and st.value is n and \
+                        au.U(st.targets[0]) not in {au.U(x) for x in au.walk_local(ops[1]) if isinstance(x, (ast.Name, ast.Attribute))}:
                     continue   # growth of a carrier (x = hstack((x, new))), not a two-block layout
                 (i0, o0), (i1, o1) = re_.atoms(ops[0], st), re_.atoms(ops[1], st)
                 # shared atoms (A*eff_in | A : the matrix itself is on both sides) do not count
@@ -227,15 +230,30 @@ def run(ctx):
                 ctx.ob("C02.d", sto, au.short(st, 70), neg == side_in,
                        "%s is a cost per volume on the side whose dispatch is %s 0: it must enter c %s so that c*x is an expense" % (
                            "cost_in" if side_in else "cost_out", "<=" if side_in else ">=", "negated" if side_in else "un-negated"), node=st)
+    def sign_guard(fn, test):
+        """'neg' for all(<max_cap-derived> <= 0), 'pos' for all(<min_cap-derived> >= 0); the operand is recognised by its origin."""
+        org = ctx.origins(fn, values_only=True)
+        for c in au.walk_local(test):
+            if isinstance(c, ast.Call) and au.method_name(c) == "all" and c.args and isinstance(c.args[0], ast.Compare) and len(c.args[0].ops) == 1:
+                cmp_ = c.args[0]
+                attrs = {x.attr for x in org.nodes(cmp_.left, test) if isinstance(x, ast.Attribute) and au.base_name(x) == "self"}
+                if au.const_num(cmp_.comparators[0]) == 0:
+                    if isinstance(cmp_.ops[0], ast.LtE) and "max_cap" in attrs:
+                        return "neg"
+                    if isinstance(cmp_.ops[0], ast.GtE) and "min_cap" in attrs:
+                        return "pos"
+        return None
+
     sc = p.cls("SimpleContract").methods["setup_optim_problem"]
+    org_sc = ctx.origins(sc, values_only=True)
     for st in au.walk_stmts(sc.body):
-        if isinstance(st, ast.If):
-            t = au.U(st.test).replace(" ", "")
-            kind = "neg" if "max_cap<=0" in t else ("pos" if "min_cap>=0" in t else None)
+        if isinstance(st, ast.If) and not isinstance(st.test, ast.BoolOp):
+            kind = sign_guard(sc, st.test)
             if kind is None:
                 continue
             for s2 in st.body:
-                if isinstance(s2, ast.Assign) and isinstance(s2.value, ast.BinOp) and "extra_costs" in au.names_in(s2.value.right) and isinstance(s2.value.op, (ast.Add, ast.Sub)):
+                if isinstance(s2, ast.Assign) and isinstance(s2.value, ast.BinOp) and isinstance(s2.value.op, (ast.Add, ast.Sub)) and \
+                        any(isinstance(x, ast.Attribute) and au.path(x) == "self.extra_costs" for x in org_sc.nodes(s2.value.right, s2)):
                     n += 1
                     ok = isinstance(s2.value.op, ast.Sub) == (kind == "neg")
                     ctx.ob("C02.d", sc, "%s under %s" % (au.short(s2, 40), au.short(st.test, 30)), ok,
@@ -243,7 +261,7 @@ def run(ctx):
                                "negative" if kind == "neg" else "positive", "subtracted from" if kind == "neg" else "added to"), node=s2)
     tr = p.cls("Transport").methods["setup_optim_problem"]
     for st in au.walk_stmts(tr.body):
-        if isinstance(st, ast.If) and "max_cap<=0" in au.U(st.test).replace(" ", ""):
+        if isinstance(st, ast.If) and not isinstance(st.test, ast.BoolOp) and sign_guard(tr, st.test) == "neg":
             for s2 in st.body:
                 if isinstance(s2, ast.Assign) and isinstance(s2.value, ast.UnaryOp):
                     n += 1
